@@ -13,8 +13,8 @@ Events that touch the table:
   (`.expect("too many streams")`), `register(id)` (`.expect("stream was already open")`);
 * a worker result for a stream → `unregister` (+ a `Close` frame if it was still registered).
 
-`Code.openChecksInitiator`: the proposed repair (`fixes-pending/C13-stream-preopened-by-peer.patch`): an `Open`
-whose id carries OUR initiator bit, or is not a git stream, is ignored.
+`Code.openChecksInitiator`: commit 614904d: an `Open` whose id carries OUR initiator bit, or is not a git
+stream, is ignored.
 
 Import-free.
 -/
@@ -42,10 +42,10 @@ structure Code where
   openChecksInitiator : Bool
   deriving Repr, DecidableEq
 
-/-- `/repo` main -/
-def Code.current : Code := { openChecksInitiator := false }
-/-- with the proposed repair -/
-def Code.fixed : Code := { openChecksInitiator := true }
+/-- `/repo` main (incl. 614904d) -/
+def Code.current : Code := { openChecksInitiator := true }
+/-- The tree before commit 614904d: any peer-chosen stream id was registered. -/
+def Code.before614904d : Code := { openChecksInitiator := false }
 
 inductive Site where
   /-- `Streams::open`: `.expect("Streams::open: stream was already open")` -/
